@@ -26,7 +26,7 @@ def attr_vals(mesh):
     if not mesh.vertices.has_attribute("wa"):
         return None
     a = mesh.vertices.get_attribute("wa")
-    return [float(a[i]) for i in range(len(mesh.vertices))]
+    return [[float(x) for x in np.atleast_1d(a[i])] for i in range(len(mesh.vertices))]
 
 
 def elems(mesh):
@@ -74,7 +74,7 @@ class C06(Sim):
             "non-trivial = >= 2 meshes alive and >= 2 transform/edit calls")
     FAULT_KINDS = ["aliasing_schedule", "reject"]
     PROBES = ["merge_same_twice", "merge_result_edited", "copy_edited", "source_edited_after_copy", "open_ring", "boundary_producer",
-              "subdivision_producer", "int_coordinates", "inverse_pair", "flatten", "normalize", "load_producer", "inplace_edit", "copy_connectivity", "elem_edit", "cloud_in_merge", "copy_of_warm_source", "attribute_attached", "attr_edit", "class_wider_than_content", "orig_is_a_vertex"]
+              "subdivision_producer", "int_coordinates", "inverse_pair", "flatten", "normalize", "load_producer", "inplace_edit", "copy_connectivity", "elem_edit", "cloud_in_merge", "copy_of_warm_source", "attribute_attached", "attr_edit", "class_wider_than_content", "orig_is_a_vertex", "hex_cells", "vector_attribute_edit"]
     QUICK_RUNS = 3000
     THOROUGH_RUNS = 300000
     BLOCK = 25
@@ -116,7 +116,7 @@ class C06(Sim):
 
     def _gen_produce(self, r, owner):
         off = self.cfg["producers_off"]
-        kinds = ["raw_surface", "raw_tets", "raw_polyline", "raw_int", "raw_cloud", "cloud_from_arrays"]
+        kinds = ["raw_surface", "raw_tets", "raw_hexes", "raw_polyline", "raw_int", "raw_cloud", "cloud_from_arrays"]
         if "procedural" not in off:
             kinds += ["ring", "ring", "flat_ring", "triangle", "quad", "unit_grid", "unit_triangle", "tetrahedron", "cube", "octahedron",
                       "icosahedron", "cylinder", "torus", "sphere_uv", "icosphere", "chain", "vector_field"]
@@ -132,7 +132,7 @@ class C06(Sim):
             if "subdivision" not in off:
                 kinds += ["subdivide"]
         k = r.choice(kinds)
-        ev = {"c": owner, "op": "produce", "kind": k, "name": self._new_name(), "attr": r.choice([None, None, "dense", "sparse"])}
+        ev = {"c": owner, "op": "produce", "kind": k, "name": self._new_name(), "attr": r.choice([None, None, "dense", "sparse"]), "attr_k": r.choice([1, 3])}
         if k in ("raw_surface", "from_arrays", "load_obj", "raw_int"):
             p, f = surfgen.gen_surface(r.fork(("w", self.nmesh)), r.choice([2, 5, 10]), tri_only=(k == "from_arrays"), allow_union=False)
             if k == "raw_int":
@@ -141,6 +141,14 @@ class C06(Sim):
         elif k == "raw_tets":
             p, c, _ = volgen.gen_tets(r.fork(("w", self.nmesh)), r.choice([1, 4, 8]))
             ev["points"], ev["cells"] = p, c
+        elif k == "raw_hexes":
+            # a row of hexahedra (6 faces and 8 corners per cell: the corner tables of a cell differ in length)
+            n = r.randint(1, 3)
+            jit = lambda: round(r.uniform(-0.1, 0.1), 3)
+            ev["points"] = [[float(i) + jit(), y + jit(), z + jit()] for i in range(n + 1) for (y, z) in ((0.0, 0.0), (1.0, 0.0), (1.0, 1.0), (0.0, 1.0))]
+            ev["cells"] = [[4 * i, 4 * i + 1, 4 * i + 2, 4 * i + 3, 4 * i + 4, 4 * i + 5, 4 * i + 6, 4 * i + 7] for i in range(n)]
+            if r.chance(0.4):
+                ev["cells"].append([0, 1, 2, 5])  # ... next to a tetrahedron
         elif k in ("raw_cloud", "cloud_from_arrays"):
             ev["points"] = [[round(r.uniform(-3, 3), 3) for _ in range(3)] for _ in range(r.randint(1, 6))]
         elif k == "load_wider":
@@ -218,8 +226,10 @@ class C06(Sim):
         P = M.procedural
         fn = None
         clean = True
-        if k in ("raw_surface", "raw_tets", "raw_polyline", "raw_int", "raw_cloud"):
+        if k in ("raw_surface", "raw_tets", "raw_hexes", "raw_polyline", "raw_int", "raw_cloud"):
             fn = raw
+            if k == "raw_hexes":
+                self.probes["hex_cells"] += 1
             if k == "raw_int":
                 self.probes["int_coordinates"] += 1
         elif k == "cloud_from_arrays":
@@ -318,9 +328,10 @@ class C06(Sim):
         if o.ok:
             m_ = o.value
             if ev.get("attr") and clean and k not in ("copy", "merge") and m_ is not None and len(m_.vertices) and not m_.vertices.has_attribute("wa"):
-                a_ = m_.vertices.create_attribute("wa", float, 1, dense=(ev["attr"] == "dense"))
+                ar_ = int(ev.get("attr_k", 1))
+                a_ = m_.vertices.create_attribute("wa", float, ar_, dense=(ev["attr"] == "dense"))
                 for i_ in range(0, len(m_.vertices), 2):
-                    a_[i_] = 0.5 + i_
+                    a_[i_] = (0.5 + i_) if ar_ == 1 else [0.5 + i_, 1.0, -2.0 * i_][:ar_]
                 self.probes["attribute_attached"] += 1
             o.value = (o.value, clean)
         return o
@@ -387,6 +398,7 @@ class C06(Sim):
         elif op == "attr_edit":
             ev["i"] = r.below(n)
             ev["x"] = round(r.uniform(-9, 9), 3)
+            ev["inplace"] = r.chance(0.5)
         elif op in ("rebind_vertex", "inplace_edit"):
             ev["i"] = r.below(n)
             ev["k"] = r.below(3)
@@ -522,6 +534,14 @@ class C06(Sim):
                         if a1 is a2 or d1 is d2 or (isinstance(d1, np.ndarray) and isinstance(d2, np.ndarray) and np.shares_memory(d1, d2)):
                             self.violation("copy-shares-no-mutable-state", "copy", "state_corrupted", "shared:attribute-storage", "flags=%r" % (ev["flags"],),
                                            "the copy's vertex attribute shares its storage with the source's")
+                # "a copy equals its source": the corner records too (element and owner of every face-vertex, cell-vertex, cell-face incidence)
+                for cn in ("face_corners", "cell_corners", "cell_faces"):
+                    if hasattr(mesh, cn) and hasattr(src_mesh, cn):
+                        mine = (list(map(int, getattr(mesh, cn)._elem)), list(map(int, getattr(mesh, cn)._adj)))
+                        theirs = (list(map(int, getattr(src_mesh, cn)._elem)), list(map(int, getattr(src_mesh, cn)._adj)))
+                        if mine != theirs:
+                            self.violation("copy-equals-source", "copy", "wrong_value", cn, s.producer,
+                                           "copy of %s: %s holds (elements, owners) %r, the source's %r" % (ev["src"], cn, (mine[0][:12], mine[1][:12]), (theirs[0][:12], theirs[1][:12])))
                 shared = [cn for cn in ("vertices", "edges", "faces", "cells", "face_corners", "cell_corners", "cell_faces", "connectivity")
                           if hasattr(mesh, cn) and getattr(mesh, cn) is getattr(src_mesh, cn)]
                 for cn in ("vertices", "edges", "faces", "cells"):
@@ -693,15 +713,26 @@ class C06(Sim):
         elif op == "attr_edit":
             self.probes["attr_edit"] += 1
 
+            ar_ = len(rf.A[ev["i"]])
+            inplace = bool(ev.get("inplace")) and ar_ > 1
+
             def edit():
-                mesh.vertices.get_attribute("wa")[ev["i"]] = float(ev["x"])
+                a_ = mesh.vertices.get_attribute("wa")
+                if inplace:
+                    v_ = a_[ev["i"]]   # the value read from one entry is changed in place (whether that writes through is the attribute's
+                    v_ += float(ev["x"])  # business - C05; here: no OTHER mesh may see it)
+                else:
+                    a_[ev["i"]] = float(ev["x"]) if ar_ == 1 else [float(ev["x"])] * ar_
             o = call(edit)
             exp = [list(p) for p in P]
             exact = True
             clause = "edit-own-mesh"
-            if o.ok:
+            if o.ok and inplace:
+                self.probes["vector_attribute_edit"] += 1
+                rf.A = attr_vals(mesh)
+            elif o.ok:
                 rf.A = list(rf.A)
-                rf.A[ev["i"]] = float(ev["x"])
+                rf.A[ev["i"]] = [float(ev["x"])] * ar_
                 if attr_vals(mesh) != rf.A:
                     self.violation(clause, op, "wrong_value", "attribute", rf.producer, "attribute edit did not land: %r vs %r" % (attr_vals(mesh), rf.A))
         elif op == "rebind_vertex":
